@@ -1501,6 +1501,733 @@ theorem ofWikiFrom_toWiki (ts : List Entry) (prev : List Str)
     · simp only [hz, Bool.false_eq_true, ↓reduceIte, List.nil_append]
       exact hstep
 
+/-! ### what the readers can return: descriptions are always trimmed -/
+
+theorem lstrip_head (s : Str) : ∀ c, (lstrip s).head? = some c → isPySpace c = false := by
+  induction s with
+  | nil => intro c h; simp [lstrip] at h
+  | cons a t ih =>
+    intro c h
+    unfold lstrip at h ih
+    by_cases ha : isPySpace a = true
+    · simp only [List.dropWhile, ha] at h; exact ih c h
+    · have ha' : isPySpace a = false := by simpa using ha
+      simp only [List.dropWhile, ha'] at h
+      simp at h; subst h; exact ha'
+
+theorem rstrip_last (t : Str) : ∀ c, (rstrip t).getLast? = some c → isPySpace c = false := by
+  induction t with
+  | nil => intro c h; simp [rstrip] at h
+  | cons a t' ih =>
+    intro c h
+    rw [rstrip_cons] at h
+    by_cases hc : ((rstrip t').isEmpty && isPySpace a) = true
+    · simp [hc] at h
+    · simp only [hc, Bool.false_eq_true, ↓reduceIte] at h
+      cases hr : rstrip t' with
+      | nil =>
+        rw [hr] at h hc
+        simp at h hc; subst h; exact hc
+      | cons b u =>
+        rw [hr] at h
+        rw [List.getLast?_cons_cons] at h
+        exact ih c (by rw [hr]; exact h)
+
+theorem rstrip_head (t : Str) : ∀ c, (rstrip t).head? = some c → t.head? = some c := by
+  cases t with
+  | nil => intro c h; simp [rstrip] at h
+  | cons a t' =>
+    intro c h
+    rw [rstrip_cons] at h
+    split at h
+    · simp at h
+    · simpa using h
+
+theorem strip_is_trimmed (s : Str) : trimmed (strip s) = true := by
+  unfold trimmed strip
+  have h1 : ∀ c, (rstrip (lstrip s)).head? = some c → isPySpace c = false :=
+    fun c hc => lstrip_head s c (rstrip_head _ c hc)
+  have h2 := rstrip_last (lstrip s)
+  cases hh : (rstrip (lstrip s)).head? with
+  | none =>
+    cases hl : (rstrip (lstrip s)).getLast? with
+    | none => simp
+    | some d => simp [h2 d hl]
+  | some c =>
+    cases hl : (rstrip (lstrip s)).getLast? with
+    | none => simp [h1 c hh]
+    | some d => simp [h1 c hh, h2 d hl]
+
+theorem readEntry_desc_trimmed (row name : Str) (as : Attrs) (desc : Option Str)
+    (h : readEntry row = .ok (name, as, desc)) : descTrimmed desc = true := by
+  unfold readEntry at h
+  split at h
+  · simp at h
+  · split at h
+    · simp at h
+    · split at h
+      · simp at h
+      · simp at h
+      · split at h
+        · simp at h
+        · simp only [Except.ok.injEq, Prod.mk.injEq] at h
+          obtain ⟨_, _, hd⟩ := h
+          subst hd
+          split
+          · rfl
+          · exact strip_is_trimmed _
+
+theorem ofWikiFrom_desc_trimmed (lines : List Str) (parents : List Str) (es : List Entry)
+    (h : ofWikiFrom lines parents = .ok es) : ∀ e ∈ es, descTrimmed e.desc = true := by
+  fun_induction ofWikiFrom lines parents generalizing es
+  all_goals first
+    | (simp at h; subst h; simp; done)
+    | (simp at h; done)
+    | (rename_i ih; exact ih es h)
+    | (rename_i ih
+       simp only [Except.ok.injEq] at h
+       subst h
+       intro e he
+       simp only [List.mem_cons] at he
+       rcases he with rfl | he
+       · exact readEntry_desc_trimmed _ _ _ _ (by assumption)
+       · exact ih _ (by assumption) e he)
+
+theorem ofTsvFrom_desc_trimmed (rows : List TsvRow) (known : List (Str × List Str)) (es : List Entry)
+    (h : ofTsvFrom rows known = .ok es) : ∀ e ∈ es, descTrimmed e.desc = true := by
+  fun_induction ofTsvFrom rows known generalizing es
+  case case8 r rest known tagName _ parents long attrs0 _ attrs desc _ _ es' hrec ih =>
+    simp only [Except.ok.injEq] at h
+    subst h
+    intro e he
+    simp only [List.mem_cons] at he
+    rcases he with rfl | he
+    · simp only [descTrimmed, desc]
+      split
+      · rfl
+      · rename_i d hd
+        split at hd
+        · simp at hd
+        · simp at hd; subst hd; exact strip_is_trimmed _
+    · exact ih es' hrec e he
+  all_goals simp at h
+  all_goals (subst h; simp)
+
+theorem readXmlDesc_trimmed (d : Option Str) : descTrimmed (readXmlDesc d) = true := by
+  cases d with
+  | none => rfl
+  | some x =>
+    simp only [readXmlDesc]
+    split
+    · rfl
+    · exact strip_is_trimmed _
+
+mutual
+theorem readNode_desc_trimmed (parents : List Str) (x : XNode) :
+    ∀ e ∈ readNode parents x, descTrimmed e.desc = true := by
+  cases x with
+  | node n d as ch =>
+    intro e he
+    simp only [readNode, List.mem_cons] at he
+    rcases he with rfl | he
+    · exact readXmlDesc_trimmed d
+    · exact readForest_desc_trimmed (parents ++ [n]) ch e he
+theorem readForest_desc_trimmed (parents : List Str) (F : List XNode) :
+    ∀ e ∈ readForest parents F, descTrimmed e.desc = true := by
+  cases F with
+  | nil => intro e he; simp [readForest] at he
+  | cons x xs =>
+    intro e he
+    simp only [readForest, List.mem_append] at he
+    rcases he with he | he
+    · exact readNode_desc_trimmed parents x e he
+    · exact readForest_desc_trimmed parents xs e he
+end
+
+/-! ### the other MediaWiki sections -/
+
+theorem entryLine_eq_tagLine (d : Nat) (name ex : Str) (hd : d ≠ 0) (hh : ¬ name.getLast? = some '#') :
+    entryLine d name ex = tagLine d name ex := by
+  have : (d == 0) = false := by simpa using hd
+  simp [entryLine, tagLine, this, hh]
+
+theorem secWF_spec {d : Nat} {e : Entry} (h : secWF d e = true) :
+    lineWF d e.name e.attrs e.desc = true ∧ descTrimmed e.desc = true ∧ ¬ e.name.getLast? = some '#' := by
+  unfold secWF at h
+  simp only [Bool.and_eq_true, Bool.not_eq_true', beq_eq_false_iff_ne, ne_eq] at h
+  exact ⟨h.1.1, h.1.2, h.2⟩
+
+theorem section_line (d : Nat) (hd : 0 < d) (e : Entry) (h : secWF d e = true) :
+    ∃ row, cleanLine (entryLine d e.name (entryExtras e)) = .ok (some row) ∧
+      readEntry row = .ok (e.name, e.attrs, e.desc) ∧ tagLevel row = some d := by
+  obtain ⟨hl, ht, hh⟩ := secWF_spec h
+  obtain ⟨c1, c2, _, c4⟩ := line_roundtrip_core d e.name e.attrs e.desc hl ht
+  refine ⟨_, ?_, c2, c4 hd⟩
+  rw [entryLine_eq_tagLine d e.name _ (by omega) hh]
+  exact c1
+
+theorem entry_eta (e : Entry) : (⟨e.name, e.attrs, e.desc⟩ : Entry) = e := by cases e; rfl
+
+theorem ofWikiSection_lines (es : List Entry) (h : ∀ e ∈ es, secWF 1 e = true) :
+    ofWikiSection (sectionLines es) = .ok es := by
+  induction es with
+  | nil => simp [sectionLines, ofWikiSection]
+  | cons e r ih =>
+    obtain ⟨row, c1, c2, _⟩ := section_line 1 (by omega) e (h e List.mem_cons_self)
+    have ih' := ih (fun x hx => h x (List.mem_cons_of_mem _ hx))
+    simp only [sectionLines, List.map_cons] at ih' ⊢
+    rw [ofWikiSection]
+    simp only [c1, c2, ih', entry_eta]
+
+theorem ofWikiUnitsAux_units (us : List Entry) (rest : List Str) (pend : List Entry)
+    (cls : List (Entry × List Entry)) (h : ∀ u ∈ us, secWF 2 u = true)
+    (hr : ofWikiUnitsAux rest = .ok (pend, cls)) :
+    ofWikiUnitsAux ((us.map fun u => entryLine 2 u.name (entryExtras u)) ++ rest) = .ok (us ++ pend, cls) := by
+  induction us with
+  | nil => simpa using hr
+  | cons u r ih =>
+    obtain ⟨row, c1, c2, c3⟩ := section_line 2 (by omega) u (h u List.mem_cons_self)
+    have ih' := ih (fun x hx => h x (List.mem_cons_of_mem _ hx))
+    simp only [List.map_cons, List.cons_append]
+    simp only [ofWikiUnitsAux, c1, c2, c3, ih', entry_eta]
+    try simp
+
+theorem ofWikiUnitsAux_lines (ucs : List (Entry × List Entry))
+    (h : ∀ p ∈ ucs, secWF 1 p.1 = true ∧ ∀ u ∈ p.2, secWF 2 u = true) :
+    ofWikiUnitsAux (unitLines ucs) = .ok ([], ucs) := by
+  induction ucs with
+  | nil => simp [unitLines, ofWikiUnitsAux]
+  | cons p r ih =>
+    obtain ⟨uc, us⟩ := p
+    obtain ⟨h1, h2⟩ := h (uc, us) List.mem_cons_self
+    obtain ⟨row, c1, c2, c3⟩ := section_line 1 (by omega) uc h1
+    have ih' := ih (fun x hx => h x (List.mem_cons_of_mem _ hx))
+    have hu := ofWikiUnitsAux_units us (unitLines r) [] r h2 ih'
+    simp only [unitLines, List.cons_append]
+    simp only [ofWikiUnitsAux, c1, c2, c3, hu, entry_eta]
+    try simp
+
+/-! ### the TSV tag sheet -/
+
+theorem name_decomp (name : Str) :
+    ∃ dl last, splitOn '/' name = dl ++ [last] ∧ shortName name = last ∧ (dl = [] → name = last) ∧
+      (dl ≠ [] → name = joinWith ['/'] dl ++ '/' :: last) := by
+  have hne := splitOn_ne_nil '/' name
+  have hdl := List.dropLast_concat_getLast hne
+  have hl : (splitOn '/' name).getLast? = some ((splitOn '/' name).getLast hne) := List.getLast?_eq_some_getLast hne
+  generalize (splitOn '/' name).getLast hne = last at hdl hl
+  refine ⟨(splitOn '/' name).dropLast, last, hdl.symm, by simp [shortName, hl], ?_, ?_⟩
+  · intro hd
+    have hj := join_split '/' name
+    rw [← hdl, hd] at hj
+    simpa [joinWith] using hj.symm
+  · intro hd
+    have hj := join_split '/' name
+    rw [← hdl, joinWith_snoc _ _ _ hd] at hj
+    simpa using hj.symm
+
+theorem getLast?_append_ne (a l : Str) (h : l ≠ []) : (a ++ l).getLast? = l.getLast? := by
+  obtain ⟨d, hd⟩ := getLast?_some_of_ne_nil l h
+  rw [getLast?_append_some a l d hd, hd]
+
+theorem endsDashHash_last {s : Str} (h : endsDashHash s = true) : s.getLast? = some '#' := by
+  unfold endsDashHash dashHash at h
+  rw [List.getLast?_eq_head?_reverse]
+  cases hr : s.reverse with
+  | nil => rw [hr] at h; simp at h
+  | cons c t =>
+    rw [hr] at h
+    simp only [List.reverse_cons, List.reverse_nil, List.nil_append, List.cons_append,
+      List.isPrefixOf_cons_cons, Bool.and_eq_true, beq_iff_eq] at h
+    simp [h.1.symm]
+
+theorem endsDashHash_append (p : Str) : endsDashHash (p ++ dashHash) = true := by
+  simp [endsDashHash, dashHash, List.isPrefixOf_cons_cons]
+
+theorem splitOn_joinComma (vs : List Str) (hne : vs ≠ []) (h : ∀ v ∈ vs, ∀ c ∈ v, c ≠ ',') :
+    splitOn ',' (joinWith [','] vs) = vs := by
+  induction vs with
+  | nil => exact absurd rfl hne
+  | cons x r ih =>
+    cases r with
+    | nil => simp [joinWith, splitOn_none ',' x (h x List.mem_cons_self)]
+    | cons y r' =>
+      have ih' := ih (by simp) (fun z hz => h z (List.mem_cons_of_mem _ hz))
+      simp only [joinWith, List.append_assoc, List.cons_append, List.nil_append]
+      rw [splitOn_append ',' x _ (h x List.mem_cons_self), ih']
+
+theorem hasKey_filter {as : Attrs} {p : Str × List Str → Bool} {k : Str} (h : hasKey as k = false) :
+    hasKey (as.filter p) k = false := by
+  unfold hasKey at *
+  simp only [List.any_eq_false, List.mem_filter] at h ⊢
+  intro x hx
+  exact h x hx.1
+
+theorem nodupKeys_filter (as : Attrs) (p : Str × List Str → Bool) (h : nodupKeys as = true) :
+    nodupKeys (as.filter p) = true := by
+  induction as with
+  | nil => rfl
+  | cons kv r ih =>
+    simp only [nodupKeys, Bool.and_eq_true, Bool.not_eq_true'] at h
+    simp only [List.filter]
+    split
+    · simp only [nodupKeys, Bool.and_eq_true, Bool.not_eq_true']
+      exact ⟨hasKey_filter h.1, ih h.2⟩
+    · exact ih h.2
+
+theorem attrsWF_filter (as : Attrs) (p : Str × List Str → Bool) (h : attrsWF as = true) :
+    attrsWF (as.filter p) = true := by
+  obtain ⟨hnd, hwf⟩ := attrsWF_spec h
+  unfold attrsWF
+  simp only [Bool.and_eq_true, List.all_eq_true]
+  refine ⟨nodupKeys_filter as p hnd, ?_⟩
+  intro kv hkv
+  have := hwf kv (List.mem_filter.mp hkv).1
+  exact ⟨this.1, this.2⟩
+
+theorem lookupAttr_none {as : Attrs} {k : Str} (h : lookupAttr as k = none) : ∀ kv ∈ as, kv.1 ≠ k := by
+  unfold lookupAttr at h
+  simp only [Option.map_eq_none_iff, List.find?_eq_none] at h
+  intro kv hkv
+  simpa using h kv hkv
+
+theorem lookupAttr_some {as : Attrs} {k : Str} {vs : List Str} (h : lookupAttr as k = some vs) : (k, vs) ∈ as := by
+  unfold lookupAttr at h
+  simp only [Option.map_eq_some_iff] at h
+  obtain ⟨kv, hf, rfl⟩ := h
+  have hm := List.mem_of_find?_eq_some hf
+  have hk := List.find?_some hf
+  have : kv.1 = k := by simpa using hk
+  rw [← this]
+  exact hm
+
+theorem dictPut_new {α} (d : List (Str × α)) (k : Str) (v : α) (h : ∀ kv ∈ d, kv.1 ≠ k) :
+    dictPut d k v = d ++ [(k, v)] := by
+  unfold dictPut
+  have : d.any (·.1 == k) = false := by
+    simp only [List.any_eq_false, beq_iff_eq]
+    exact h
+  simp [this]
+
+theorem tsvWF_spec {e : Entry} (h : tsvWF e = true) :
+    attrsWF e.attrs = true ∧ hasKey e.attrs annotationKey = false ∧ lookupAttr e.attrs hedIdKey ≠ some [] ∧
+    (∀ d, e.desc = some d → d ≠ [] ∧ trimmed d = true) ∧ (∀ c ∈ splitOn '/' e.name, c ≠ []) ∧
+    (match (splitOn '/' e.name).reverse with
+     | last :: _ :: _ => last = ['#'] ∨ ¬ last.getLast? = some '#'
+     | [last] => ¬ last.getLast? = some '#'
+     | [] => False) := by
+  unfold tsvWF at h
+  simp only [Bool.and_eq_true, Bool.not_eq_true', List.all_eq_true, List.isEmpty_eq_false_iff] at h
+  obtain ⟨⟨⟨⟨⟨h1, h2⟩, h3⟩, h4⟩, h5⟩, h6⟩ := h
+  refine ⟨h1, h2, ?_, ?_, h5, ?_⟩
+  · intro hc; rw [hc] at h3; simp at h3
+  · intro d hd; rw [hd] at h4; simpa using h4
+  · revert h6
+    cases (splitOn '/' e.name).reverse with
+    | nil => simp
+    | cons last t =>
+      cases t with
+      | nil => simp
+      | cons p t' => simp
+
+theorem tsv_name_decode (lv : Nat) (e : Entry) (h : tsvWF e = true) :
+    (if endsDashHash (tsvRow lv e).name then ['#'] else (tsvRow lv e).name) = shortName e.name ∧
+    shortName e.name ≠ [] ∧ e.name ≠ ['#'] := by
+  obtain ⟨_, _, _, _, hcomp, hlast⟩ := tsvWF_spec h
+  obtain ⟨dl, last, hcs, hshort, h1, h2⟩ := name_decomp e.name
+  have hlne : last ≠ [] := hcomp last (by rw [hcs]; simp)
+  have hrev : (splitOn '/' e.name).reverse = last :: dl.reverse := by rw [hcs]; simp
+  have hnl : e.name.getLast? = last.getLast? := by
+    by_cases hd : dl = []
+    · rw [h1 hd]
+    · rw [h2 hd]
+      have : joinWith ['/'] dl ++ '/' :: last = (joinWith ['/'] dl ++ ['/']) ++ last := by simp
+      rw [this, getLast?_append_ne _ _ hlne]
+  rw [hrev] at hlast
+  rw [hshort]
+  have hname : (tsvRow lv e).name =
+      if e.name.getLast? == some '#' then shortTag e.name ++ dashHash else shortTag e.name := rfl
+  by_cases hh : last.getLast? = some '#'
+  · -- value-taking child `…/#`
+    cases hdr : dl.reverse with
+    | nil => rw [hdr] at hlast; exact absurd hh hlast
+    | cons prev t =>
+      rw [hdr] at hlast
+      have hl : last = ['#'] := by
+        rcases hlast with hl | hl
+        · exact hl
+        · exact absurd hh hl
+      subst hl
+      have hdne : dl ≠ [] := by intro e0; rw [e0] at hdr; simp at hdr
+      have hst : shortTag e.name = prev := by simp [shortTag, hrev, hdr]
+      refine ⟨?_, hlne, ?_⟩
+      · rw [hname, hnl, hh, hst]
+        simp [endsDashHash_append]
+      · intro hn
+        have : splitOn '/' e.name = [['#']] := by rw [hn]; decide
+        rw [this] at hcs
+        cases dl with
+        | nil => exact hdne rfl
+        | cons a t => simp at hcs
+  · have hl : ¬ last = ['#'] := by intro e0; rw [e0] at hh; simp at hh
+    have hst' : shortTag e.name = last := by
+      unfold shortTag
+      rw [hrev]
+      cases dl.reverse with
+      | nil => simp [hl]
+      | cons p t => simp [hl]
+    have hne : ¬ (e.name.getLast? == some '#') = true := by rw [hnl]; simpa using hh
+    refine ⟨?_, hlne, ?_⟩
+    · rw [hname]
+      simp only [hne, Bool.false_eq_true, ↓reduceIte, hst']
+      have : endsDashHash last = false := by
+        cases hd : endsDashHash last with
+        | false => rfl
+        | true => exact absurd (endsDashHash_last hd) hh
+      simp [this]
+    · intro hn
+      rw [hn] at hnl
+      simp at hnl
+      exact hh hnl.symm
+
+theorem tsv_long (e : Entry) :
+    tsvLong (some (splitOn '/' e.name).dropLast) (shortName e.name) = e.name := by
+  unfold tsvLong
+  obtain ⟨dl, last, hcs, hshort, h1, h2⟩ := name_decomp e.name
+  rw [hcs, List.dropLast_concat, hshort]
+  cases dl with
+  | nil => simpa using (h1 rfl).symm
+  | cons p ps => simpa using (h2 (by simp)).symm
+
+theorem dfAttrs_eq (as : Attrs) (ha : hasKey as annotationKey = false) :
+    dfAttrs as = as.filter fun kv => !(kv.1 == hedIdKey) := by
+  unfold dfAttrs
+  apply List.filter_congr
+  intro kv hkv
+  have := hasKey_false ha kv hkv
+  simp [this]
+
+theorem tsv_attrs (lv : Nat) (e : Entry) (h : tsvWF e = true) :
+    parseAttr (tsvRow lv e).attrs = .ok (dfAttrs e.attrs) ∧
+    (if (tsvRow lv e).hedId.isEmpty then dfAttrs e.attrs
+     else dictPut (dfAttrs e.attrs) hedIdKey (splitOn ',' (tsvRow lv e).hedId)) = (hedLast e).attrs := by
+  obtain ⟨hwf, hann, hid, _, _, _⟩ := tsvWF_spec h
+  refine ⟨parseAttr_formatAttr _ (attrsWF_filter _ _ hwf), ?_⟩
+  have hdf := dfAttrs_eq e.attrs hann
+  have hhid : (tsvRow lv e).hedId = match lookupAttr e.attrs hedIdKey with
+      | none => []
+      | some [] => ['T', 'r', 'u', 'e']
+      | some vs => joinWith [','] vs := rfl
+  rw [hhid]
+  unfold hedLast
+  cases hl : lookupAttr e.attrs hedIdKey with
+  | none =>
+    simp only [List.isEmpty_nil, ↓reduceIte]
+    rw [hdf]
+    apply List.filter_eq_self.mpr
+    intro kv hkv
+    simpa using lookupAttr_none hl kv hkv
+  | some vs =>
+    cases vs with
+    | nil => exact absurd hl hid
+    | cons v vs' =>
+      have hmem := lookupAttr_some hl
+      obtain ⟨_, hall⟩ := attrsWF_spec hwf
+      have hvs := (hall _ hmem).2
+      have hvne : v ≠ [] := (valWF_spec (hvs v List.mem_cons_self)).1
+      have hj : joinWith [','] (v :: vs') ≠ [] := joinWith_ne_nil _ v vs' hvne
+      have hemp : (joinWith [','] (v :: vs')).isEmpty = false := by simpa using hj
+      simp only [hemp, Bool.false_eq_true, ↓reduceIte]
+      rw [splitOn_joinComma (v :: vs') (by simp) (fun x hx c hc => ((valWF_spec (hvs x hx)).2.2 c hc).1), hdf]
+      apply dictPut_new
+      intro kv hkv
+      have := (List.mem_filter.mp hkv).2
+      simpa using this
+
+theorem tsv_desc (lv : Nat) (e : Entry) (h : tsvWF e = true) :
+    (if (tsvRow lv e).desc.isEmpty then none else some (strip (tsvRow lv e).desc)) = e.desc := by
+  obtain ⟨_, _, _, hd, _, _⟩ := tsvWF_spec h
+  have : (tsvRow lv e).desc = e.desc.getD [] := rfl
+  rw [this]
+  cases hdesc : e.desc with
+  | none => simp
+  | some d =>
+    obtain ⟨hne, htr⟩ := hd d hdesc
+    have : d.isEmpty = false := by simpa using hne
+    simp [this, strip_trimmed htr]
+
+theorem ofTsvFrom_toTsvRows (leveled : List (Nat × Entry)) (known : List (Str × List Str))
+    (hwf : ∀ p ∈ leveled, tsvWF p.2 = true) (hr : TsvResolvable known (leveled.map (·.2)) = true) :
+    ofTsvFrom (toTsvRows leveled) known = .ok (leveled.map fun p => hedLast p.2) := by
+  induction leveled generalizing known with
+  | nil => simp [toTsvRows, ofTsvFrom]
+  | cons p r ih =>
+    obtain ⟨lv, e⟩ := p
+    have hw := hwf (lv, e) List.mem_cons_self
+    simp only [List.map_cons, TsvResolvable, Bool.and_eq_true, beq_iff_eq] at hr
+    obtain ⟨hk, hr'⟩ := hr
+    obtain ⟨hdec, hsne, hnh⟩ := tsv_name_decode lv e hw
+    have hk : dictGet known (tsvRow lv e).parent = some (splitOn '/' e.name).dropLast := hk
+    have hlong := tsv_long e
+    obtain ⟨hparse, hattrs⟩ := tsv_attrs lv e hw
+    have hdesc := tsv_desc lv e hw
+    have ih' := ih (dictPut known (shortTag e.name) (splitOn '/' e.name))
+      (fun x hx => hwf x (List.mem_cons_of_mem _ hx)) hr'
+    have hsemp : (shortName e.name).isEmpty = false := by simpa using hsne
+    have hnh' : (e.name == ['#']) = false := by simpa using hnh
+    have hmk : (⟨e.name, (hedLast e).attrs, e.desc⟩ : Entry) = hedLast e := by
+      unfold hedLast
+      cases lookupAttr e.attrs hedIdKey <;> rfl
+    simp only [toTsvRows, List.map_cons] at ih' ⊢
+    rw [ofTsvFrom]
+    simp only [hdec, hsemp, hlong, hparse, hattrs, hdesc, hnh', hk, ih', hmk]
+    simp
+
+theorem hedLast_lookup (e : Entry) (k : Str) : lookupAttr (hedLast e).attrs k = lookupAttr e.attrs k := by
+  unfold hedLast
+  cases hl : lookupAttr e.attrs hedIdKey with
+  | none => rfl
+  | some vs =>
+    simp only
+    unfold lookupAttr at hl ⊢
+    rw [List.find?_append, List.find?_filter]
+    by_cases hk : k = hedIdKey
+    · subst hk
+      have : (e.attrs.find? fun a => decide ((!(a.1 == hedIdKey)) = true ∧ (a.1 == hedIdKey) = true)) = none := by
+        simp [List.find?_eq_none]
+      rw [this]
+      simpa using hl.symm
+    · have hfun : (fun a : Str × List Str => decide ((!(a.1 == hedIdKey)) = true ∧ (a.1 == k) = true)) =
+          fun a => a.1 == k := by
+        funext a
+        by_cases ha : a.1 = k
+        · simp [ha, hk]
+        · simp [ha]
+      rw [hfun]
+      have hne : (hedIdKey == k) = false := by simpa using Ne.symm hk
+      cases e.attrs.find? (fun a => a.1 == k) with
+      | none => simp [hne]
+      | some x => simp
+
+/-! ### the XML element tree -/
+
+/-- names along the rightmost spine of a forest, `d` levels deep (proof device for `insertDepth`) -/
+def spine : List XNode → Nat → List Str
+  | _, 0 => []
+  | [], _ + 1 => []
+  | [.node n _ _ ch], k + 1 => n :: spine ch k
+  | _ :: m :: rest, k + 1 => spine (m :: rest) (k + 1)
+
+theorem readForest_append (ps : List Str) (F G : List XNode) :
+    readForest ps (F ++ G) = readForest ps F ++ readForest ps G := by
+  induction F with
+  | nil => simp [readForest]
+  | cons x xs ih => simp [readForest, ih]
+
+theorem insert_read (F : List XNode) (d : Nat) (x : XNode) (F' : List XNode) (ps : List Str)
+    (h : insertDepth F d x = some F') :
+    readForest ps F' = readForest ps F ++ readNode (ps ++ spine F d) x := by
+  fun_induction insertDepth F d x generalizing F' ps
+  case case1 F x =>
+    simp only [Option.some.injEq] at h
+    subst h
+    simp [readForest_append, readForest, spine]
+  case case2 => simp at h
+  case case3 n d as ch k x ih =>
+    simp only [Option.map_eq_some_iff] at h
+    obtain ⟨ch', hch, rfl⟩ := h
+    have := ih ch' (ps ++ [n]) hch
+    simp [readForest, readNode, this, spine]
+  case case4 n m rest k x ih =>
+    simp only [Option.map_eq_some_iff] at h
+    obtain ⟨F'', hF, rfl⟩ := h
+    have := ih F'' ps hF
+    simp [readForest, this, spine]
+
+theorem insertDepth_ne_nil (F : List XNode) (d : Nat) (x : XNode) (F' : List XNode)
+    (h : insertDepth F d x = some F') : F' ≠ [] := by
+  fun_induction insertDepth F d x generalizing F'
+  case case1 => simp at h; subst h; simp
+  case case2 => simp at h
+  case case3 =>
+    simp only [Option.map_eq_some_iff] at h
+    obtain ⟨_, _, rfl⟩ := h; simp
+  case case4 =>
+    simp only [Option.map_eq_some_iff] at h
+    obtain ⟨_, _, rfl⟩ := h; simp
+
+theorem spine_succ_cons_cons (n a : XNode) (b : List XNode) (k : Nat) :
+    spine (n :: a :: b) (k + 1) = spine (a :: b) (k + 1) := by
+  simp [spine]
+
+theorem spine_append_last (F : List XNode) (n : Str) (d : Option Str) (as : Attrs) (ch : List XNode) (k : Nat) :
+    spine (F ++ [.node n d as ch]) (k + 1) = n :: spine ch k := by
+  induction F with
+  | nil => simp [spine]
+  | cons a t ih =>
+    cases t with
+    | nil => simpa [spine] using ih
+    | cons b t' =>
+      simp only [List.cons_append] at ih ⊢
+      rw [spine_succ_cons_cons]
+      exact ih
+
+theorem spine_success (F : List XNode) (d : Nat) (x : XNode) (h : (spine F d).length = d) :
+    ∃ F', insertDepth F d x = some F' := by
+  fun_induction insertDepth F d x
+  case case1 F x => exact ⟨_, rfl⟩
+  case case2 => simp [spine] at h
+  case case3 n dd as ch k x ih =>
+    simp only [spine, List.length_cons] at h
+    obtain ⟨ch', hch⟩ := ih (by omega)
+    exact ⟨[.node n dd as ch'], by simp [insertDepth, hch]⟩
+  case case4 n m rest k x ih =>
+    rw [spine_succ_cons_cons] at h
+    obtain ⟨F'', hF⟩ := ih h
+    exact ⟨n :: F'', by simp [insertDepth, hF]⟩
+
+theorem spine_after_insert (F : List XNode) (d : Nat) (n : Str) (dd : Option Str) (as : Attrs) (F' : List XNode)
+    (h : insertDepth F d (.node n dd as []) = some F') :
+    (∀ d' ≤ d, spine F' d' = spine F d') ∧ spine F' (d + 1) = spine F d ++ [n] := by
+  generalize hx : XNode.node n dd as [] = x at h
+  fun_induction insertDepth F d x generalizing F'
+  case case1 F x =>
+    simp only [Option.some.injEq] at h
+    subst h; subst hx
+    refine ⟨?_, ?_⟩
+    · intro d' hd'
+      have : d' = 0 := by omega
+      subst this; simp [spine]
+    · simp [spine_append_last, spine]
+  case case2 => simp at h
+  case case3 n0 d0 as0 ch k x ih =>
+    simp only [Option.map_eq_some_iff] at h
+    obtain ⟨ch', hch, rfl⟩ := h
+    obtain ⟨i1, i2⟩ := ih ch' hx hch
+    refine ⟨?_, ?_⟩
+    · intro d' hd'
+      cases d' with
+      | zero => simp [spine]
+      | succ j => simp [spine, i1 j (by omega)]
+    · simp [spine, i2]
+  case case4 n0 m rest k x ih =>
+    simp only [Option.map_eq_some_iff] at h
+    obtain ⟨F'', hF, rfl⟩ := h
+    obtain ⟨i1, i2⟩ := ih F'' hx hF
+    obtain ⟨a, b, hab⟩ := List.exists_cons_of_ne_nil (insertDepth_ne_nil _ _ _ _ hF)
+    subst hab
+    refine ⟨?_, ?_⟩
+    · intro d' hd'
+      cases d' with
+      | zero => simp [spine]
+      | succ j =>
+        rw [spine_succ_cons_cons, spine_succ_cons_cons]
+        exact i1 (j + 1) hd'
+    · rw [spine_succ_cons_cons, spine_succ_cons_cons]
+      exact i2
+
+theorem readXmlAttrs_id (as acc : Attrs) (hnd : nodupKeys as = true)
+    (hv : ∀ kv ∈ as, ∀ v ∈ kv.2, v ≠ [] ∧ ∀ c ∈ v, c ≠ ',') (hdis : ∀ kv ∈ as, hasKey acc kv.1 = false) :
+    readXmlAttrs as acc = acc ++ as := by
+  induction as generalizing acc with
+  | nil => simp [readXmlAttrs]
+  | cons kv r ih =>
+    obtain ⟨k, vs⟩ := kv
+    simp only [nodupKeys, Bool.and_eq_true, Bool.not_eq_true'] at hnd
+    have hval : (if (joinWith [','] vs).isEmpty then [] else splitOn ',' (joinWith [','] vs)) = vs := by
+      cases vs with
+      | nil => simp [joinWith]
+      | cons v vs' =>
+        have hv' := hv (k, v :: vs') List.mem_cons_self
+        have hj : (joinWith [','] (v :: vs')).isEmpty = false := by
+          simpa using joinWith_ne_nil [','] v vs' (hv' v List.mem_cons_self).1
+        rw [hj]
+        simp only [Bool.false_eq_true, ↓reduceIte]
+        exact splitOn_joinComma _ (by simp) (fun x hx => (hv' x hx).2)
+    have hput : dictPut acc k vs = acc ++ [(k, vs)] :=
+      dictPut_new acc k vs (hasKey_false (hdis (k, vs) List.mem_cons_self))
+    simp only [readXmlAttrs, hval, hput]
+    rw [ih (acc ++ [(k, vs)]) hnd.2 (fun x hx => hv x (List.mem_cons_of_mem _ hx))]
+    · simp
+    · intro kv' hkv'
+      apply hasKey_append_single _ _ _ _ (hdis kv' (List.mem_cons_of_mem _ hkv'))
+      have := hasKey_false hnd.1 kv' hkv'
+      exact beq_eq_false_iff_ne.mpr (fun e => this e.symm)
+
+theorem xmlWF_spec {e : Entry} (h : xmlWF e = true) :
+    nodupKeys e.attrs = true ∧ (∀ kv ∈ e.attrs, ∀ v ∈ kv.2, v ≠ [] ∧ ∀ c ∈ v, c ≠ ',') ∧
+    (∀ d, e.desc = some d → d ≠ [] ∧ trimmed d = true) := by
+  unfold xmlWF at h
+  simp only [Bool.and_eq_true, List.all_eq_true, Bool.not_eq_true', List.isEmpty_eq_false_iff, bne_iff_ne] at h
+  refine ⟨h.1.1, fun kv hkv v hv => ⟨(h.1.2 kv hkv v hv).1, (h.1.2 kv hkv v hv).2⟩, ?_⟩
+  intro d hd
+  have := h.2
+  rw [hd] at this
+  simpa using this
+
+theorem xml_elem_read (ps : List Str) (e : Entry) (h : xmlWF e = true) :
+    readNode ps (xmlElem e) =
+      [⟨joinWith ['/'] (ps ++ [shortName e.name]), e.attrs, e.desc⟩] := by
+  obtain ⟨hnd, hv, hd⟩ := xmlWF_spec h
+  have ha := readXmlAttrs_id e.attrs [] hnd hv (by intro kv _; rfl)
+  simp only [List.nil_append] at ha
+  have hdesc : readXmlDesc (xmlDesc e.desc) = e.desc := by
+    cases hde : e.desc with
+    | none => rfl
+    | some d =>
+      obtain ⟨hne, htr⟩ := hd d hde
+      have h1 : d.isEmpty = false := by simpa using hne
+      simp [xmlDesc, h1, readXmlDesc, strip_trimmed htr]
+  unfold xmlElem
+  simp only [readNode, readForest, ha, hdesc, List.append_nil]
+
+theorem toXmlFrom_read (leveled : List Entry) (prev : List Str) (F : List XNode)
+    (hwf : ∀ e ∈ leveled, xmlWF e = true) (hp : Preorder prev leveled = true)
+    (hinv : ∀ d ≤ prev.length, spine F d = prev.take d) :
+    ∃ F', toXmlFrom (leveled.map fun e => (level e.name, e)) F = some F' ∧
+      readForest [] F' = readForest [] F ++ leveled := by
+  induction leveled generalizing prev F with
+  | nil => exact ⟨F, by simp [toXmlFrom], by simp⟩
+  | cons e r ih =>
+    simp only [Preorder, Bool.and_eq_true, decide_eq_true_eq, beq_iff_eq] at hp
+    obtain ⟨⟨h1, h2⟩, h3⟩ := hp
+    have hlevel : level e.name = (splitOn '/' e.name).length - 1 := by simp [level, splitOn_length]
+    have hcne := splitOn_ne_nil '/' e.name
+    obtain ⟨dl, last, hcs, hshort, _, _⟩ := name_decomp e.name
+    have hdl : (splitOn '/' e.name).dropLast = dl := by rw [hcs, List.dropLast_concat]
+    have hlen : (splitOn '/' e.name).length - 1 = dl.length := by rw [hcs]; simp
+    rw [hlen] at h1 h2
+    rw [hdl] at h2
+    have hsp : spine F dl.length = dl := by rw [hinv _ h1, ← h2]
+    obtain ⟨F1, hF1⟩ := spine_success F dl.length (xmlElem e) (by rw [hsp])
+    have hread := insert_read F dl.length (xmlElem e) F1 [] hF1
+    rw [hsp, xml_elem_read _ e (hwf e List.mem_cons_self)] at hread
+    have hname : joinWith ['/'] ([] ++ dl ++ [shortName e.name]) = e.name := by
+      rw [hshort]; simp only [List.nil_append]; rw [← hcs]; exact join_split '/' e.name
+    rw [hname] at hread
+    have hxe : xmlElem e = .node (shortName e.name) (xmlDesc e.desc) e.attrs [] := rfl
+    rw [hxe] at hF1
+    obtain ⟨s1, s2⟩ := spine_after_insert F dl.length _ _ _ F1 hF1
+    have hinv' : ∀ d ≤ (splitOn '/' e.name).length, spine F1 d = (splitOn '/' e.name).take d := by
+      intro d hd
+      rw [hcs] at hd ⊢
+      simp only [List.length_append, List.length_cons, List.length_nil] at hd
+      by_cases hle : d ≤ dl.length
+      · rw [s1 d hle, hinv d (by omega), List.take_append_of_le_length hle]
+        have : dl.take d = (prev.take dl.length).take d := congrArg (List.take d) h2
+        rw [this, List.take_take]
+        congr 1; omega
+      · have : d = dl.length + 1 := by omega
+        subst this
+        rw [s2, hsp, hshort]
+        exact (List.take_of_length_le (by simp)).symm
+    obtain ⟨F', hF', hr'⟩ := ih (splitOn '/' e.name) F1 (fun x hx => hwf x (List.mem_cons_of_mem _ hx)) h3 hinv'
+    refine ⟨F', ?_, ?_⟩
+    · simp only [List.map_cons, toXmlFrom, hlevel, hlen]
+      rw [← hxe] at hF1
+      simp [hF1, hF']
+    · rw [hr', hread, entry_eta]; simp
+
 end HedVerif.SchemaIO
 
 namespace HedVerif.C05
@@ -1689,5 +2416,119 @@ theorem escape_roundtrip_partial (s : Str) (h : ∀ c ∈ s, c ≠ '\\') : unesc
 
 /-- a literal backslash followed by `n` comes back as a newline (observed on the real TSV round trip of a prologue) -/
 theorem escape_counterexample : unescapeNl (escapeNl ['a', '\\', 'n', 'b']) = ['a', '\n', 'b'] := by decide
+
+/-! ### descriptions of loaded schemas -/
+
+/-- **Every description a reader returns is trimmed.**  Whatever lines, rows or element tree they are given, the
+MediaWiki tag reader, the TSV tag reader and (since fix a64eb53) the XML tag reader only produce descriptions
+without leading or trailing blanks (or none).  Hence the "trimmed description" hypothesis of
+`line_roundtrip_partial`, `wiki_tags_roundtrip_partial`, `tsv_tags_roundtrip`, `xml_tags_roundtrip` holds for
+every entry of every schema that was obtained by loading one of the three formats: for loaded schemas the
+`_partial` theorems are unconditional in that respect. -/
+theorem loaded_descriptions_trimmed :
+    (∀ lines es, ofWiki lines = .ok es → ∀ e ∈ es, descTrimmed e.desc = true) ∧
+    (∀ rows es, ofTsvRows rows = .ok es → ∀ e ∈ es, descTrimmed e.desc = true) ∧
+    (∀ F, ∀ e ∈ ofXmlTree F, descTrimmed e.desc = true) :=
+  ⟨fun lines es h => ofWikiFrom_desc_trimmed lines [] es h,
+   fun rows es h => ofTsvFrom_desc_trimmed rows _ es h,
+   fun F => readForest_desc_trimmed [] F⟩
+
+/-! ### the other MediaWiki sections -/
+
+/-- **The flat sections and the unit-class section of a MediaWiki file round-trip.**  For entries whose lines are
+well-formed (`secWF`: `lineWF` at depth 1 — units at depth 2 —, trimmed description, name not ending in `#`):
+`_read_section` applied to the `* name <nowiki>…</nowiki>` lines of a section (unit modifiers, value classes,
+schema attributes, properties) returns the entries, and `_read_unit_classes` applied to the `* class` / `** unit`
+lines returns every class with exactly its own units, in order. -/
+theorem wiki_sections_roundtrip :
+    (∀ es : List Entry, (∀ e ∈ es, secWF 1 e = true) → ofWikiSection (sectionLines es) = .ok es) ∧
+    (∀ ucs : List (Entry × List Entry),
+      (∀ p ∈ ucs, secWF 1 p.1 = true ∧ ∀ u ∈ p.2, secWF 2 u = true) → ofWikiUnits (unitLines ucs) = .ok ucs) := by
+  refine ⟨ofWikiSection_lines, ?_⟩
+  intro ucs h
+  simp [ofWikiUnits, ofWikiUnitsAux_lines ucs h]
+
+example : secWF 1 ⟨['m'], [(['S'], []), (['c'], [['1', '.', '0']])], some ['d']⟩ = true := by decide
+
+/-! ### the TSV tag sheet -/
+
+/-- **The TSV tag sheet round-trips.**  For every list of written tag entries (with the level each is written at)
+such that every entry satisfies `tsvWF` (attributes as in `attr_roundtrip`, no `annotationProperty`, a hedId with
+at least one value, description absent or non-empty and trimmed, non-empty path segments, only a whole segment
+`#` may end in `#`) and the short-parent-name column resolves (`TsvResolvable`: in `known_parent_tags` the
+`omn:SubClassOf` cell of each row maps to the path of the tag's parent — what distinct short names, C03's
+`ShortDistinct`, give): `_read_schema` applied to the rows `_write_tag_entry` produces (hedId column, `name-#`
+for value children, short parent name, attribute string without hedId, description) rebuilds every long name,
+every attribute with all its values and every description; the only change is that hedId is re-attached behind
+the other attributes (`hedLast`), which `hedLast_same` shows is the same attribute map. -/
+theorem tsv_tags_roundtrip (leveled : List (Nat × Entry)) (hwf : ∀ p ∈ leveled, tsvWF p.2 = true)
+    (hr : TsvResolvable [(hedTag, [])] (leveled.map (·.2)) = true) :
+    ofTsvRows (toTsvRows leveled) = .ok (leveled.map fun p => hedLast p.2) :=
+  ofTsvFrom_toTsvRows leveled _ hwf hr
+
+/-- moving hedId behind the other attributes changes neither name nor description nor what any attribute name
+maps to (Python dictionaries compare as maps) -/
+theorem hedLast_same (e : Entry) :
+    (hedLast e).name = e.name ∧ (hedLast e).desc = e.desc ∧
+    ∀ k, lookupAttr (hedLast e).attrs k = lookupAttr e.attrs k := by
+  refine ⟨?_, ?_, hedLast_lookup e⟩ <;> (unfold hedLast; cases lookupAttr e.attrs hedIdKey <;> rfl)
+
+example :
+    let ts : List Entry :=
+      [⟨['E'], [(hedIdKey, [['H', '1']]), (['x'], [])], some ['d']⟩,
+       ⟨['E', '/', 'F'], [(['s'], [['E'], ['G']])], none⟩,
+       ⟨['E', '/', 'F', '/', '#'], [(['t'], [])], some ['a', ' ', '=', '"']⟩,
+       ⟨['G'], [], none⟩]
+    (ts.all tsvWF) = true ∧ TsvResolvable [(hedTag, [])] ts = true ∧
+      (ofTsvRows (toTsvRows (ts.map fun e => (level e.name, e)))).toOption = some (ts.map hedLast) := by decide
+
+/-! ### the XML element tree -/
+
+/-- **The XML tag section round-trips.**  For every preorder listing of tag entries satisfying `xmlWF` (distinct
+attribute names, every value non-empty and comma-free, description absent or non-empty and trimmed):
+`_output_tags` builds a `<node>` forest (each entry a `<node>` with `<name>`, optional `<description>`, one
+`<attribute>` per attribute holding one `<value>` element per value — a multi-valued `suggestedTag=a,b` becomes two
+`<value>`s, not one — nested under its parent), and `_add_tags_recursive` on that forest returns exactly the
+entries: long names from the nesting, attributes with all their values (re-joined by `,`), descriptions. -/
+theorem xml_tags_roundtrip (ts : List Entry) (hwf : ∀ e ∈ ts, xmlWF e = true) (hp : Preorder [] ts = true) :
+    ∃ F, toXmlTree (ts.map fun e => (level e.name, e)) = some F ∧ ofXmlTree F = ts := by
+  obtain ⟨F, h1, h2⟩ := toXmlFrom_read ts [] [] hwf hp (by
+    intro d hd
+    have : d = 0 := by simpa using hd
+    subst this; simp [spine])
+  exact ⟨F, h1, by simpa [ofXmlTree, readForest] using h2⟩
+
+example :
+    let ts : List Entry :=
+      [⟨['E'], [(['x'], [])], some ['d']⟩,
+       ⟨['E', '/', 'F'], [(['s'], [['E'], ['G']])], none⟩,
+       ⟨['E', '/', 'F', '/', '#'], [(['t'], [])], some ['a', ',', ' ', 'b']⟩,
+       ⟨['G'], [], none⟩]
+    (ts.all xmlWF) = true ∧
+      (toXmlTree (ts.map fun e => (level e.name, e))).map ofXmlTree = some ts := by decide
+
+/-! ### the three formats agree -/
+
+/-- **Cross-format agreement.**  For a tag forest that satisfies the well-formedness predicates of all three
+formats, the three abstract documents — MediaWiki lines, TSV rows, XML element forest — decode to the same
+entries: MediaWiki and XML give the list itself, TSV gives it with hedId moved behind the other attributes, which
+is the same attribute map (`hedLast_same`). -/
+theorem cross_format (ts : List Entry)
+    (hw : ∀ e ∈ ts, entryWF e = true ∧ descTrimmed e.desc = true ∧ tsvWF e = true ∧ xmlWF e = true)
+    (hp : Preorder [] ts = true) (hr : TsvResolvable [(hedTag, [])] ts = true) :
+    ofWiki (toWiki ts) = .ok ts ∧
+    (∃ F, toXmlTree (ts.map fun e => (level e.name, e)) = some F ∧ ofXmlTree F = ts) ∧
+    ofTsvRows (toTsvRows (ts.map fun e => (level e.name, e))) = .ok (ts.map hedLast) := by
+  refine ⟨wiki_tags_roundtrip_partial ts (fun e he => ⟨(hw e he).1, (hw e he).2.1⟩) hp,
+    xml_tags_roundtrip ts (fun e he => (hw e he).2.2.2) hp, ?_⟩
+  have e1 : (ts.map fun e => (level e.name, e)).map (·.2) = ts := by
+    rw [List.map_map]; exact List.map_id'' (fun _ => rfl) ts
+  have e2 : ((ts.map fun e => (level e.name, e)).map fun p => hedLast p.2) = ts.map hedLast := by
+    rw [List.map_map]; rfl
+  have := tsv_tags_roundtrip (ts.map fun e => (level e.name, e))
+    (by intro p hp'; obtain ⟨e, he, rfl⟩ := List.mem_map.mp hp'; exact (hw e he).2.2.1)
+    (by rw [e1]; exact hr)
+  rw [e2] at this
+  exact this
 
 end HedVerif.C05
